@@ -85,7 +85,7 @@ def check_setting(part, row, table_by_number):
         R = tuple(int(round(v)) for v in s.rotation.ravel())
         t = tuple(int(round(v * 12)) for v in s.translation)
         part.trace()
-        if (R, t) != op or abs(s.rotation.ravel() - R).max() > 0 or abs(s.translation * 12 - t).max() > 1e-12:
+        if (R, t) != op or not (abs(s.rotation.ravel() - R).max() <= 0) or not (abs(s.translation * 12 - t).max() <= 1e-12):
             part.fail("decode-conformance:%d" % c, "from_integer_code(%d) = %s,%s, reference %s" % (c, R, t, op), case)
         if int(s.integer_code) != c:
             part.fail("code-cache:%d" % c, "from_integer_code(%d).integer_code = %s" % (c, s.integer_code), case)
